@@ -2,6 +2,7 @@
    option, list, prod, unit, sumbool map to OCaml's own; nat, positive, N, Z stay
    the extracted inductive types.  No Extract Constant. *)
 From Coq Require Import Extraction ExtrOcamlBasic NArith ZArith List.
-From AHK Require Import Lib.Res Lib.ByteStr Model.Tlv8.
+From AHK Require Import Lib.Res Lib.ByteStr Model.Tlv8 Model.Tlv8Sig Proofs.Tlv8Exact.
 Separate Extraction Z.of_N Z.to_N N.of_nat N.to_nat
-  tlv8_encode tlv8_decode tlv8_spec wf_schema fits_msg tlv8_items tlv8_array utf8_valid.
+  tlv8_encode tlv8_decode tlv8_spec wf_schema fits_msg tlv8_items tlv8_array utf8_valid
+  to_dict unpack_value pack_value sequ16_good.
